@@ -92,6 +92,26 @@ def make(name, rng):
             d = rng.choice([1, 2])
             ncls = rng.choice([1, 2, 3])
             return dict(est=est, gen=lambda n: (cc_rows(rng, n, d), np.array([rng.randrange(ncls) for _ in range(n)])), pf=True, sup=True)
+        if name in ("SAM_DV", "ARTMAP_DV"):
+            rho = rng.choice([0.5, 0.75, 0.875])
+            dv = artlib.DualVigilanceART(_fz(rng, rho=rho), rho_lower_bound=float(rng.choice([0.0, 0.125, 0.25, 0.375])))
+            d = rng.choice([1, 2])
+            if name == "SAM_DV":
+                ncls = rng.choice([2, 3])
+                return dict(est=artlib.SimpleARTMAP(dv), gen=lambda n: (cc_rows(rng, n, d), np.array([rng.randrange(ncls) for _ in range(n)])), pf=True, sup=True)
+            return dict(est=artlib.ARTMAP(dv, _fz(rng)), gen=lambda n: (cc_rows(rng, n, d), cc_rows(rng, n, 1)), pf=True, sup=True)
+        if name == "SAM_Fusion":
+            ds = [rng.choice([1, 2]) for _ in range(2)]
+            fus = artlib.FusionART([_fz(rng) for _ in range(2)], [0.5, 0.5], [2 * d for d in ds])
+            ncls = rng.choice([2, 3])
+            return dict(est=artlib.SimpleARTMAP(fus), gen=lambda n: (np.hstack([cc_rows(rng, n, d) for d in ds]), np.array([rng.randrange(ncls) for _ in range(n)])), pf=True, sup=True)
+        if name == "SAM_K":
+            import kernfam
+            kind = rng.choice(kernfam.KINDS)
+            d = rng.choice([1, 2, 3])
+            pk = kernfam.gen_params(rng, kind, d)
+            ncls = rng.choice([2, 3])
+            return dict(est=artlib.SimpleARTMAP(kernfam.make(kind, pk)), gen=lambda n: (np.asarray(kernfam.gen_data(rng, kind, max(n, 3), d), dtype=float), np.array([rng.randrange(ncls) for _ in range(max(n, 3))])), pf=True, sup=True)
         if name == "ARTMAP":
             est = artlib.ARTMAP(_fz(rng), _fz(rng))
             d = rng.choice([1, 2])
@@ -100,6 +120,20 @@ def make(name, rng):
 
 
 NAMES = ["Fusion", "DualVigilance", "Topo", "CVIART", "iCVIFuzzy", "SimpleARTMAP", "ARTMAP"]
+# compound modules as the A-side of a supervised wrapper (C07, C09 quantify over these nestings)
+NESTED_NAMES = ["SAM_DV", "ARTMAP_DV", "SAM_Fusion", "SAM_K"]
+
+
+class TableVeto:
+    """stateful reset function: the k-th call answers bits[k mod 13]"""
+
+    def __init__(self, rng):
+        self.bits = [rng.random() < 0.5 for _ in range(13)]
+        self.n = 0
+
+    def __call__(self, *a, **kw):
+        self.n += 1
+        return self.bits[self.n % 13]
 
 
 def take(X, ix):
@@ -113,9 +147,11 @@ def nrows(X):
     return len(X[0]) if isinstance(X, list) else len(X)
 
 
-def call(est, op, X, y, mode="MT+", eps=0.0):
+def call(est, op, X, y, mode="MT+", eps=0.0, veto=None):
     with contextlib.redirect_stdout(io.StringIO()), np.errstate(all="ignore"):
         cn = type(est).__name__
+        if veto is not None and y is None and cn in ("FusionART", "DualVigilanceART", "TopoART"):
+            return getattr(est, op)(X, match_reset_func=veto, match_tracking=mode, epsilon=eps)
         if cn in ("FALCON", "TD_FALCON"):
             return getattr(est, op)(X[0], X[1], X[2])
         if cn == "SMART":
@@ -153,8 +189,10 @@ def views(name, est):
     return out
 
 
-def gen_zoo_history(rng, name):
+def gen_zoo_history(rng, name, veto_ok=False):
     z = make(name, rng)
+    if veto_ok and name in ("Fusion", "DualVigilance", "Topo") and rng.random() < 0.6:
+        z["veto"] = TableVeto(rng)
     n = rng.randrange(3, 14)
     X, y = z["gen"](n)
     mode = rng.choice(B.MODES)
@@ -188,7 +226,8 @@ def describe(name, z, X, y, ops, mode, eps, i):
         ps = type(est).__name__
     return {"estimator": name, "params": ps,
             "X": [x.tolist() for x in X] if isinstance(X, list) else X.tolist(), "y": None if y is None else np.asarray(y).tolist(),
-            "ops": [(o, list(ix)) for o, ix in ops], "mode": mode, "eps": eps, "failing_op": i}
+            "ops": [(o, list(ix)) for o, ix in ops], "mode": mode, "eps": eps, "failing_op": i,
+            "reset_function_bits": (z["veto"].bits if z.get("veto") is not None else None)}
 
 
 def book_oracle_all(rng, n):
